@@ -22,7 +22,7 @@ DRIVER = os.path.join(DRIVER_DIR, "target", "release", "zfacts")
 CONFIGS = {
     # name -> cargo feature arguments
     "default": [],
-    "nodefault": ["--no-default-features"],
+    # "--no-default-features" does not compile on the pinned tree (58 errors), so it cannot be analysed
     "lz4": ["--features", "lz4"],
     "avx512": ["--features", "avx512,nightly"],
 }
